@@ -1,10 +1,12 @@
 mod case;
+mod cfg;
 mod corrupt;
 mod crash;
 mod fault;
 mod fsck;
 mod gen;
 mod known;
+mod long;
 mod model;
 mod props;
 mod rng;
@@ -49,6 +51,8 @@ fn plan(prop: &str, tier: &str) -> (&'static str, u64) {
         "C03" => ("seq", if thorough { 150_000 } else { 8_000 }),
         "C02" => ("crash", if thorough { 20_000 } else { 1_200 }),
         "C11" => ("fault", if thorough { 6_000 } else { 320 }),
+        "C10" => ("long", if thorough { 1_600 } else { 160 }),
+        "C16" => ("cfg", if thorough { 1_500 } else { 128 }),
         "C12" => ("corrupt", if thorough { 4_000 } else { 480 }),
         _ => ("none", 0),
     }
@@ -553,6 +557,7 @@ fn main() {
         Some("check") if args.len() >= 3 => cmd_check(&args[1], &args[2]),
         Some("worker") if args.len() >= 8 => cmd_worker(&args[1..]),
         Some("replay") if args.len() >= 2 => cmd_replay(&args[1]),
+        Some("oneshot") => cfg::oneshot(),
         Some("run") if args.len() >= 3 => cmd_run(&args[1], &args[2], args.get(3).map(|s| s == "-v").unwrap_or(false)),
         _ => {
             eprintln!("usage: jsim check <Cxx> <quick|thorough> | replay <file> | run <Cxx> <index|#seed> [-v]");
